@@ -66,7 +66,7 @@ fn probe() -> Req {
 pub fn gen10(ctx: &Ctx) {
     let mut rng = Rng::new(ctx.seed, "conn10");
     let mut out = Out::new(&ctx.dir, "conn10");
-    out.rule = "head limit N in 1..64 (exhaustive) and 4096/16384: heads of length max(18,N-2)..N+2 and N+40 (padding a header or the path), with/without body bytes in the same segment, \
+    out.rule = "head limit N in 1..64 (exhaustive) and 4096/16384 (plus 65535, 65536, 65636, 131072 with heads of 200 / 5000 bytes and around N): heads of length max(18,N-2)..N+2 and N+40 (padding a header or the path), with/without body bytes in the same segment, \
                 3 segmentations each (one segment, split in two, small pieces); then a probe request. non-trivial = at least one request answered".into();
     let mut ns: Vec<usize> = (1..=64).collect();
     ns.extend([100, 4096, 16384]);
@@ -103,6 +103,22 @@ pub fn gen10(ctx: &Ctx) {
                     steps.extend(exchange(&mut rng, &probe(), false));
                     finish_case(&mut out, n, steps, &format!("{}/len-N={}", if with_body { "body" } else { "nobody" }, l as i64 - n as i64));
                 }
+            }
+        }
+    }
+    // limits at and beyond 2^16 (a limit is a usize, not a 16-bit quantity): short heads far below the limit, and heads around it
+    for &n in &[65535usize, 65536, 65636, 131072] {
+        let mut lens = vec![200usize, 5000];
+        if n <= 65636 { lens.extend([n - 1, n, n + 1]); }
+        for &l in &lens {
+            let mut r = Req { method: "GET", path: "/".into(), fields: vec![], body: vec![] };
+            r.fields.insert(0, ("x".into(), vec![b'p'; l - 18 - 5]));
+            assert_eq!(r.head().len(), l);
+            for style in [0u64, 1] {
+                let mut steps: Vec<String> = cut(&mut rng, &r.head(), style).iter().map(|s| format!("D{}", hex(s))).collect();
+                steps.push("R".into());
+                steps.extend(exchange(&mut rng, &probe(), false));
+                finish_case(&mut out, n, steps, &format!("big-limit/len-N={}", l as i64 - n as i64));
             }
         }
     }
@@ -143,7 +159,8 @@ pub fn gen09(ctx: &Ctx) {
             }
         }
         // malformed first head, then probe
-        for bad in [&b"GET / HTTP/1.1\r\nbad header\r\n\r\n"[..], b"GET  HTTP/1.1\r\n\r\n", b"GET / HTTP/2.0\r\n\r\n", b"GET / HTTP/1.1\r\nContent-Length: x\r\n\r\n"] {
+        for bad in [&b"GET / HTTP/1.1\r\nbad header\r\n\r\n"[..], b"GET  HTTP/1.1\r\n\r\n", b"GET / HTTP/2.0\r\n\r\n", b"GET / HTTP/1.1\r\nContent-Length: x\r\n\r\n",
+                    b"POST /all HTTP/1.1\r\nTransfer-Encoding: gzip\r\n\r\n", b"POST /all HTTP/1.1\r\nTransfer-Encoding: chunked, gzip\r\n\r\n", b"POST /none HTTP/1.1\r\nHost: x\r\nTransfer-Encoding: identity\r\n\r\n"] {
             let mut steps = vec![format!("D{}", hex(bad)), "R".to_string()];
             steps.extend(exchange(&mut rng, &probe(), false));
             finish_case(&mut out, 4096, steps, "malformed-head");
@@ -156,7 +173,7 @@ pub fn gen09(ctx: &Ctx) {
 pub fn gen05(ctx: &Ctx) {
     let mut rng = Rng::new(ctx.seed, "conn05");
     let mut out = Out::new(&ctx.dir, "conn05");
-    out.rule = "first request POST /all with every combination of Content-Length fields {absent, 5, +5, 5x, '5, 5', two equal, two different, 2^64, 20 digits, padded, 05, 0} x \
+    out.rule = "first request to /all (method POST, GET, HEAD, TRACE, PUT, DELETE or a custom one) with every combination of Content-Length fields {absent, 5, +5, 5x, '5, 5', two equal, two different, 2^64, 20 digits, padded, 05, 0} x \
                 Transfer-Encoding fields {absent, chunked, CHUNKED, 'chunked ', HT chunked, 'gzip, chunked', 'chunked, gzip', gzip, split over two lines both ways, empty}, both field orders, \
                 body sent as a chunked encoding of 'hello' or as 5 raw bytes, head and body in the same or separate segments; then a probe request. non-trivial = at least one request answered".into();
     let cls: Vec<Vec<&[u8]>> = vec![vec![], vec![b"5"], vec![b"+5"], vec![b"5x"], vec![b"5, 5"], vec![b"5", b"5"], vec![b"5", b"6"], vec![b"18446744073709551616"],
@@ -174,7 +191,8 @@ pub fn gen05(ctx: &Ctx) {
             let bodyless = (cl.is_empty() && te.is_empty()) || (te.is_empty() && cl.iter().all(|v| *v == b"0"));
             // a chunked encoding is only sent when some Transfer-Encoding field announces one
             let body = if bodyless { vec![] } else if bodykind == 0 && !te.is_empty() { chunked(b"hello", &mut rng) } else { b"hello".to_vec() };
-            let r = Req { method: "POST", path: "/all".into(), fields, body };
+            // the method plays no part in RFC 9112 6.3
+            let r = Req { method: *rng.pick(&["POST", "POST", "GET", "HEAD", "TRACE", "PUT", "DELETE", "PURGE"]), path: "/all".into(), fields, body };
             let g = rng.chance(1, 2);
                     let mut steps = exchange(&mut rng, &r, g);
             steps.extend(exchange(&mut rng, &probe(), false));
@@ -188,7 +206,7 @@ pub fn gen05(ctx: &Ctx) {
 pub fn gen07(ctx: &Ctx) {
     let mut rng = Rng::new(ctx.seed, "conn07");
     let mut out = Out::new(&ctx.dir, "conn07");
-    out.rule = "histories of 1..5 lock-step requests on one connection mixing no body / fixed / chunked bodies (0..300 bytes, some 5000) x handler behaviours {read all, read k, read nothing, \
+    out.rule = "histories of 1..5 lock-step requests on one connection mixing no body / fixed / chunked bodies (0..300 bytes, some 5000; chunked spelled chunked / Chunked / CHUNKED / with trailing OWS / as last list member; any method, also GET HEAD TRACE DELETE with a body) x handler behaviours {read all, read k, read nothing, \
                 respond first, respond+close, Err, hook answers} x segmentations (one segment, head|body, byte-by-byte, small pieces); and `hold` histories where the next request is delivered \
                 together with the unread rest of the body while the handler that already responded is held. non-trivial = at least two requests answered".into();
     let n = if ctx.thorough { 6000 } else { 500 };
@@ -203,7 +221,9 @@ pub fn gen07(ctx: &Ctx) {
             let (mut fields, body): (Vec<(String, Vec<u8>)>, Vec<u8>) = match framing {
                 0 => (vec![], vec![]),
                 1 => (vec![("Content-Length".into(), blen.to_string().into_bytes())], payload.clone()),
-                _ => (vec![("Transfer-Encoding".into(), b"chunked".to_vec())], chunked(&payload, &mut rng)),
+                // every spelling whose final coding is chunked (single coding in any case, with trailing OWS, last member of a list)
+                _ => (vec![(rng.pick(&["Transfer-Encoding", "transfer-encoding", "TRANSFER-ENCODING"]).to_string(),
+                            rng.pick(&[&b"chunked"[..], b"chunked", b"Chunked", b"CHUNKED", b"chunked ", b"chunked\t", b"gzip, chunked", b"gzip , Chunked "]).to_vec())], chunked(&payload, &mut rng)),
             };
             let path = match rng.below(12) {
                 0..=3 => "/all".to_string(), 4 => format!("/k/{}", rng.below(blen as u64 + 3)), 5 => "/none".into(), 6 => "/first".into(),
@@ -212,7 +232,9 @@ pub fn gen07(ctx: &Ctx) {
             if rng.chance(1, 12) { fields.push(("x-hook".into(), b"answer".to_vec())); }
             if rng.chance(1, 4) { fields.push(("Host".into(), b"example.com".to_vec())); }
             class.push_str(["n", "f", "c"][framing as usize]);
-            let r = Req { method: if body.is_empty() { "GET" } else { "POST" }, path, fields, body };
+            // framing is decided by the framing fields, never by the method: bodies also ride on GET, HEAD, TRACE, DELETE, custom methods
+            let method = if rng.chance(1, 3) { *rng.pick(&["GET", "HEAD", "TRACE", "DELETE", "PUT", "OPTIONS", "PURGE", "get"]) } else if body.is_empty() { "GET" } else { "POST" };
+            let r = Req { method, path, fields, body };
             let g = rng.chance(1, 3);
             steps.extend(exchange(&mut rng, &r, g));
         }
@@ -252,6 +274,53 @@ pub fn gen07(ctx: &Ctx) {
         steps.push("R".into());
         steps.extend(exchange(&mut rng, &probe(), false));
         finish_case(&mut out, 4096, steps, if fixed { "hold/fixed" } else { "hold/chunked" });
+    }
+    out.finish();
+}
+
+
+// ------------------------------------------------------------------------------------------ C03 (pairs)
+/// stream `segpair`: a request with a body followed (lock-step) by a probe, the first request delivered under several
+/// segmentations; case = the scripts joined by '#', impl = the transcripts joined by '#'
+pub fn run_segpair(case: &str) -> String {
+    crate::util::note_current(case);
+    case.split('#').map(run).collect::<Vec<_>>().join("#")
+}
+pub fn gen_segpair(ctx: &Ctx) {
+    let mut rng = Rng::new(ctx.seed, "segpair");
+    let mut out = Out::new(&ctx.dir, "segpair");
+    out.rule = "a request with a fixed-length body (handler reads all / none / 2 bytes / answers first; pre-routing hook proceeds / answers / answers with close; any method) followed in lock-step by a \
+                probe request; the first request's bytes are delivered as one segment, head | body, head + 1 body byte | rest, a cut inside the head, and small pieces: every segmentation must give \
+                the same transcript. non-trivial = all".into();
+    let n = if ctx.thorough { 600 } else { 60 };
+    for _ in 0..n {
+        let blen = rng.range(2, 60) as usize;
+        let body: Vec<u8> = (0..blen).map(|_| b'a' + rng.below(26) as u8).collect();
+        let mut fields: Vec<(String, Vec<u8>)> = vec![("Content-Length".into(), blen.to_string().into_bytes())];
+        match rng.below(4) { 0 => fields.push(("x-hook".into(), b"answer".to_vec())), 1 => fields.push(("x-hook".into(), b"answer-close".to_vec())), _ => {} }
+        if rng.chance(1, 2) { fields.reverse(); }
+        let path = *rng.pick(&["/all", "/none", "/k/2", "/first", "/nosuch"]);
+        let r = Req { method: *rng.pick(&["POST", "PUT", "GET", "DELETE"]), path: path.into(), fields, body };
+        let head = r.head();
+        let mut all = head.clone(); all.extend(&r.body);
+        let hc = rng.range(1, head.len() as u64 - 1) as usize;
+        let segs: Vec<Vec<Vec<u8>>> = vec![
+            vec![all.clone()],
+            vec![head.clone(), r.body.clone()],
+            vec![all[..head.len() + 1].to_vec(), all[head.len() + 1..].to_vec()],
+            vec![all[..hc].to_vec(), all[hc..].to_vec()],
+            cut(&mut rng, &all, 3),
+        ];
+        let tail = exchange(&mut rng, &probe(), false);
+        let scripts: Vec<String> = segs.iter().map(|sg| {
+            let mut steps: Vec<String> = sg.iter().filter(|x| !x.is_empty()).map(|x| format!("D{}", hex(x))).collect();
+            steps.push("R".into());
+            steps.extend(tail.clone());
+            format!("N=4096;{}", steps.join(";"))
+        }).collect();
+        let case = scripts.join("#");
+        let res = run_segpair(&case);
+        out.emit(&case, &res, &format!("first={path}"), true);
     }
     out.finish();
 }
